@@ -222,7 +222,7 @@ func (fv *FuncVC) fresh(prefix string, s Sort) Term {
 }
 
 func sanitize(s string) string {
-	r := strings.NewReplacer(" ", "_", "(", "_", ")", "_", "*", "p", "/", "_", "[", "_", "]", "_", ",", "_", "$", "_", ":", "_", "\"", "", "{", "_", "}", "_", ";", "_", "|", "_")
+	r := strings.NewReplacer(" ", "_", "(", "_", ")", "_", "*", "p", "/", "_", "[", "_", "]", "_", ",", "_", "$", "_", ":", "_", "\"", "", "{", "_", "}", "_", ";", "_", "|", "_", ">", "_", "<", "_", "=", "_", "&", "_", "!", "_")
 	return r.Replace(s)
 }
 
